@@ -122,7 +122,7 @@ const RE_OPS: &[&str] = &[
   "none", "map", "filter", "take", "skip", "take_last", "skip_last", "take_while", "skip_while", "first", "last", "element_at",
   "distinct_until_changed", "scan", "reduce", "count", "sum", "min", "max", "all", "contains", "default_if_empty", "ignore_elements",
   "start_with", "buffer_with_count", "window_with_count", "group_by", "materialize", "mat_demat", "tap", "map_to_any", "flat_map",
-  "on_error_resume_next", "retry", "time_interval", "timestamp", "publish_ref_count", "replay",
+  "on_error_resume_next", "retry", "time_interval", "timestamp", "publish_ref_count", "replay", "delay", "sample_self",
 ];
 const RE_ACTIONS: &[&str] = &["unsubscribe", "emit", "complete", "error", "subscribe"];
 
@@ -244,6 +244,8 @@ impl Family for Reenter {
         "none" => base,
         "publish_ref_count" => base.ref_count().observable(),
         "replay" => base.replay().observable(),
+        // the subject samples itself: the trigger fires with an item pending
+        "sample_self" => base.sample(base.clone()),
         name => {
           let ctx = pipe::Ctx::new(vec![base]);
           let j = Json::obj(vec![("op", Json::str(name)), ("a", Json::Int(a)), ("in", Json::obj(vec![("src", Json::Int(0))]))]);
